@@ -116,6 +116,18 @@ func ReplyPayload(tok string) string { return Payload("R:" + tok) }
 // MetaVal is a metadata value derived from the token.
 func MetaVal(tok string, i int) string { return fmt.Sprintf("%x", hash(fmt.Sprintf("m%d:%s", i, tok))) }
 
+// TailMeta is the value of the last metadata pair "Ztail" of the message with that token:
+// "-" = the pair is absent, "" = present with an empty value, otherwise a token-derived value.
+func TailMeta(tok string) string {
+	switch hash("Z"+tok) % 3 {
+	case 0:
+		return "-"
+	case 1:
+		return ""
+	}
+	return MetaVal(tok, 3)
+}
+
 // Build makes the body value for a kind. For "bytes" the returned slice lives in a larger
 // buffer whose spare capacity carries a canary (see CanaryOK).
 func Build(kind, tok, pay string) interface{} {
@@ -280,6 +292,12 @@ func check(m *Monitor, kind, phase string, ctx inCtx, arg interface{}, wantMetho
 		m.Report("handler-meta-foreign/"+phase, kind, fmt.Sprintf("token %q: metadata M1=%q want %q", tok, mv, MetaVal(tok, 1)))
 		return tok, false
 	}
+	if want := TailMeta(tok); want != "-" {
+		if got := string(ctx.PeekMeta("Ztail")); got != want {
+			m.Report("handler-meta-foreign/"+phase, kind, fmt.Sprintf("token %q: last metadata pair Ztail=%q, sent %q", tok, got, want))
+			return tok, false
+		}
+	}
 	if sm := ctx.ServiceMethod(); sm != wantMethod {
 		m.Report("handler-method/"+phase, kind, fmt.Sprintf("token %q: service method %q want %q", tok, sm, wantMethod))
 		return tok, false
@@ -320,6 +338,9 @@ func handleCall(kind, route string, ctx erpc.CallCtx, arg interface{}) (interfac
 	}
 	ctx.SetMeta("Rtok", tok)
 	ctx.SetMeta("R1", MetaVal(tok, 2))
+	if v := TailMeta("R:" + tok); v != "-" {
+		ctx.SetMeta("Ztail", v)
+	}
 	rp := ReplyPayload(tok)
 	switch kind {
 	case "bytes":
